@@ -172,11 +172,11 @@ func (d *decoder) decode(v interface{}) error {
 						var err error
 						if tlv8 == "-" {
 							// unnamed slices are inline encoded
-							err = d.decode(v)
-							if isEmptyStruct(v) {
+							if !d.hasValuesFor(valueType.Elem()) {
 								// step out of loop
 								break
 							}
+							err = d.decode(v)
 						} else {
 							b, e := d.r.readBytes(tag)
 							if e == io.EOF {
@@ -237,6 +237,30 @@ func (d *decoder) decode(v interface{}) error {
 	}
 
 	return nil
+}
+
+// hasValuesFor returns true when a value for any field of the struct type t is left to read.
+// An element of an inline encoded slice may consist of zero values only, therefore
+// the end of the slice cannot be detected by looking at the decoded element.
+func (d *decoder) hasValuesFor(t reflect.Type) bool {
+	if t.Kind() == reflect.Ptr {
+		t = t.Elem()
+	}
+	if t.Kind() != reflect.Struct {
+		return false
+	}
+	for i := 0; i < t.NumField(); i++ {
+		if tlv8, ok := t.Field(i).Tag.Lookup("tlv8"); ok {
+			if tlv8 == "-" {
+				if ft := t.Field(i).Type; ft.Kind() == reflect.Slice && d.hasValuesFor(ft.Elem()) {
+					return true
+				}
+			} else if d.r.len(uint8(to.Uint64(strings.Split(tlv8, ",")[0]))) > 0 {
+				return true
+			}
+		}
+	}
+	return false
 }
 
 func newValueOf(t reflect.Type) reflect.Value {
